@@ -643,6 +643,8 @@ func exec(line string) zv.Out {
 			out = "ret"
 		})
 		return zv.Out{Go: out, Viol: viol, Tags: append(tags, "edkey:"+out, fmt.Sprintf("edkey:len%s32", cmp3(kl, 32)))}
+	case "ecpriv": // ecpriv <version> <curve index> <private key hex>
+		return execECPriv(f, tags)
 	case "rsapub": // rsapub <N> <E> <siglen> <sigfill> <msglen>
 		N, E := parseBig(f[2]), parseBig(f[3])
 		sl, _ := strconv.Atoi(f[4])
